@@ -125,7 +125,14 @@ def run(h: Harness):
     for gi in range(h.n(40, 600)):
         refined = rng.random() < 0.5
         opts = {"ann": refined, "float": rng.random() < 0.3, "str": False}
-        spec = gram.productive_spec(rng, max_classes=rng.choice([3, 4, 6]), opts=opts)
+        backtracking = refined and rng.random() < 0.25
+        if backtracking:
+            # a production that raises SynthesisException in some contexts (and is then abandoned for another one)
+            import props.c10 as c10
+            spec = c10.backtracking_spec(rng)
+            h.count("backtracking-grammar")
+        else:
+            spec = gram.productive_spec(rng, max_classes=rng.choice([3, 4, 6]), opts=opts)
         if not refined:
             for c in spec.classes:
                 c.fields = [(n, ("int" if isinstance(t, tuple) and t[0] == "ann" else t)) for n, t in c.fields]
